@@ -326,6 +326,8 @@ void XMLGrammarPoolImpl::deserializeGrammars(BinInputStream* const binIn)
     // thrown during deserialization.
     JanitorMemFunCall<XMLGrammarPoolImpl>   cleanup(this, &XMLGrammarPoolImpl::cleanUp);
 
+    bool locked = false;
+
     try
     {
         XSerializeEngine  serEng(binIn, this);
@@ -351,8 +353,10 @@ void XMLGrammarPoolImpl::deserializeGrammars(BinInputStream* const binIn)
                     , memMgr);
         }
 
-        //lock status
-        serEng>>fLocked;
+        //lock status: keep the pool unlocked while loading (getURIStringPool()
+        //returns the synchronized string pool of a locked pool, which does not
+        //exist yet) and lock it, through lockPool(), once everything is loaded
+        serEng>>locked;
 
         //StringPool, don't use >>
         fStringPool->serialize(serEng);
@@ -376,9 +380,9 @@ void XMLGrammarPoolImpl::deserializeGrammars(BinInputStream* const binIn)
     // Everything is OK, so we can release the cleanup object.
     cleanup.release();
 
-    if (fLocked)
+    if (locked)
     {
-        createXSModel();
+        lockPool();
     }
 }
 
